@@ -21,6 +21,12 @@ func (h *KaSrv) Slow(ctx context.Context, tok int, ms int) (int, error) {
 	return tok, nil
 }
 
+// Big returns an n-byte string after ms milliseconds of virtual time.
+func (h *KaSrv) Big(ctx context.Context, ms int, n int) (string, error) {
+	time.Sleep(time.Duration(ms) * time.Millisecond)
+	return strings.Repeat("k", n), nil
+}
+
 // Ticks sends n values, one every ms milliseconds.
 func (h *KaSrv) Ticks(ctx context.Context, n int, ms int) (<-chan int, error) {
 	out := make(chan int)
@@ -39,6 +45,7 @@ func (h *KaSrv) Ticks(ctx context.Context, n int, ms int) (<-chan int, error) {
 }
 
 type KaCli struct {
+	Big   func(ctx context.Context, ms int, n int) (string, error)
 	Slow  func(ctx context.Context, tok int, ms int) (int, error)
 	Ticks func(ctx context.Context, n int, ms int) (<-chan int, error)
 }
@@ -89,7 +96,13 @@ func init() {
 						ps = append(ps, Param{Name: fmt.Sprintf("healthy2-p%d-t%d-sp%d-%s", c.pc, c.tc, sp, sh), Bound: tb,
 							V: map[string]int{"pc": c.pc, "tc": c.tc, "sp": sp, "after_reconnect": 1}, S: map[string]string{"shape": sh, "mode": "healthy"}})
 					}
-					for _, at := range []string{"idle", "pending", "busy", "busy-early"} {
+					ats := []string{"idle", "pending", "busy", "busy-early"}
+					if sp == 0 {
+						// the peer falls silent in the middle of the frame that carries the response
+						// (only without server pings: the response is then server-to-client frame 0)
+						ats = append(ats, "midframe")
+					}
+					for _, at := range ats {
 						ps = append(ps, Param{Name: fmt.Sprintf("silent-p%d-t%d-sp%d-%s", c.pc, c.tc, sp, at), Bound: tb,
 							V: map[string]int{"pc": c.pc, "tc": c.tc, "sp": sp}, S: map[string]string{"shape": at, "mode": "silent"}})
 					}
@@ -197,8 +210,10 @@ func keepaliveBody(s *vsched.Sched, p Param) {
 				s.Violate("C17: the workload (%s) failed on a healthy connection: %s", shape, v)
 			}
 		} else {
-			if k, _ := w.Net.Link(0).Fault(); k != vnet.Blackhole {
+			if k, at := w.Net.Link(0).Fault(); k != vnet.Blackhole {
 				s.Violate("HARNESS: the blackhole never struck")
+			} else if shape == "midframe" {
+				bhAt = at
 			}
 			if shape != "idle" {
 				v, ok := obs.Get("ret")
@@ -232,6 +247,18 @@ func keepaliveBody(s *vsched.Sched, p Param) {
 		s.Go("acut", func() { w.Net.Link(0).Sever(vnet.FIN) })
 	}
 	switch {
+	case mode == "silent" && shape == "midframe":
+		w.Net.ArmFrame(0, vnet.FrameCut{Kind: vnet.Blackhole, Dir: vnet.S2C, Frame: 0, Where: vnet.MidPayload})
+		s.Go("caller", func() {
+			obs.Set("iss-call", "1")
+			_, err := cli.Big(context.Background(), int(5*pc/2/time.Millisecond), 20000)
+			obs.Set("ret", "%d %s", s.Now(), errClass(err))
+		})
+		s.Go("zprobe", func() {
+			s.Env("probe-go")
+			v, err := cli.Slow(context.Background(), 9, 1)
+			obs.Set("probe", "%d/%v", v, err)
+		})
 	case mode == "silent":
 		if shape != "idle" {
 			s.Go("caller", func() {
